@@ -36,6 +36,10 @@ def run(ck):
     f, n = lc.gen(ck, "Gen_Lifecycle.quick.cfg" if ck.quick else "Gen_Lifecycle.thorough.cfg", "transitions", timeout=1800)
     files.append(f)
     lc.sample_history(ck, f)
+    # long-lived views: a view made from a field keeps denoting the same storage across moves of the field object and is
+    # dead once its owner is assigned to or destroyed (Lifecycle.tla: view, KeepViews); every transition of that model
+    fv, nv = lc.gen(ck, "Gen_Lifecycle.views.cfg", "views", timeout=1800)
+    files.append(fv)
     sim = 40 if ck.quick else 600
     f2, n2 = lc.gen(ck, "Gen_Lifecycle.sim.cfg", "sim", simulate=sim, depth=31, timeout=900)
     files.append(f2)
@@ -53,4 +57,5 @@ def run(ck):
                 ck.validate_trace("Trace_Lifecycle", "Trace_Lifecycle.cfg", tr, "lifecycle/driver-trace", n_traces=6, n_events=s.get("events", 0))
         ck.bound("driver_history_length", 70)
     ck.assume("moved-from fields and the target of a self-move-assignment are unspecified: only destruction and assignment to them are exercised")
-    ck.assume("views are taken immediately before each access; a view outliving its field is outside the property")
+    ck.assume("a long-lived view is used only while the specification keeps it valid: until the field owning its storage is "
+              "assigned to, self-assigned, converted from by move, or destroyed; it is required to survive moves of the field object")
